@@ -342,6 +342,9 @@ def corpus():
     return out
 
 
+_PER_KEY = {}
+
+
 def run_prop_cases(cases, R):
     nfail = 0
     for c in cases:
@@ -352,7 +355,11 @@ def run_prop_cases(cases, R):
         R.count('oracle:%s:%s' % (c['check'], c['impl']))
         if res is not None:
             nfail += 1
-            R.prop_fail('C08:%s:%s' % (c['kernel'], c['check']), c, res[0], res[1])
+            key = 'C08:%s:%s' % (c['kernel'], c['check'])
+            _PER_KEY[key] = _PER_KEY.get(key, 0) + 1
+            R.count('fail:' + key)
+            if _PER_KEY[key] <= 4:      # keep room for other classes of failure
+                R.prop_fail(key, c, res[0], res[1])
     return nfail
 
 
@@ -525,8 +532,8 @@ def main():
     R.count('corpus', len(corpus()))
     check_tables(R)
     same = check_mako(R, a.work)
-    check_model(model_points(rng, 4 if quick else 12, 12 if quick else 60), R)
-    run_prop_cases(gen_prop_cases(rng, 4 if quick else 10, 16 if quick else 60), R)
+    check_model(model_points(rng, 10 if quick else 24, 40 if quick else 120), R)
+    run_prop_cases(gen_prop_cases(rng, 8 if quick else 24, 32 if quick else 96), R)
     if a.broken or R.d['disagreements'] or same is False:
         rng2 = random.Random(a.seed + 12345)
         before = len(R.d['property_failures'])
